@@ -5,6 +5,7 @@ FENCE_NOTE = ("Trusts: x86-64 Linux page protection and the fault error code (wr
               "and 20-40 line C models). Accesses inside mapped memory that is no arena slot are not observed.")
 
 ENGINES = [
+    {"name": "erase", "path": "harness/erase/", "serves_properties": ["C18"], "kind_free_text": "victim/probe client matrix over optimisation levels and LTO"},
     {"name": "ct", "path": "harness/ct.c", "serves_properties": ["C19"], "kind_free_text": "timingsafe_* result differential + memcheck taint run"},
     {"name": "tok", "path": "harness/tok.c", "serves_properties": ["C14", "C01", "C02"], "kind_free_text": "tokenizer call-sequence driver with reference tokenizer"},
     {"name": "sortsearch", "path": "harness/sortsearch.c", "serves_properties": ["C16"], "kind_free_text": "qsort_s / bsearch_s driver with checking comparators"},
@@ -61,6 +62,12 @@ META = {
                   "delimiter positions overwritten, NULL forever after the first NULL, *ptr+*dmaxp never beyond dest+dmax, *dmaxp never grows); unterminated "
                   "inputs must end in an error without any access past dmax (buffer exact-fit between PROT_NONE pages).",
              note=FENCE_NOTE),
+ "C18": dict(technique="runtime monitoring: out-of-band probe of dead buffers in client programs built per optimisation level / LTO, with a plain-memset positive control",
+             engine="erase",
+             text="For each compiler configuration (gcc -O0..-O3/-Os, with and without -flto and static linking; clang in thorough) a client erases a buffer that is dead "
+                  "afterwards; a -O0 probe then reads the recorded address from a non-overlapping frame and counts bytes that do not hold the fill value, and bytes "
+                  "changed outside the range. A configuration in which the plain-memset control does not lose its store is reported inconclusive.",
+             note="Observes the memory state after return for the compilers/flags in the matrix only."),
  "C19": dict(technique="runtime monitoring: valgrind memcheck secret-taint (regions marked undefined) + exhaustive result differential",
              engine="ct",
              text="Result: all byte pairs at the first difference for n 0..64 against memcmp. Data-independence: the executed code of the -O0 and -O2 builds is run under "
